@@ -14,7 +14,7 @@ from .. import common
 from ..common import Ctx
 
 THEOREMS = [
-    "C14_constants_in_range", "C14_latest_wins", "C14_not_before_lifespan", "C14_after_twice",
+    "C14_constants_in_range", "C14_grace_is_a_few_seconds", "C14_latest_wins", "C14_not_before_lifespan", "C14_after_twice",
     "C14_span_never_cant", "C14_expiry_monotone", "C14_expired_total", "C14_zero_span_old_refuted",
     "C14_expired_reads_unknown_partial", "C14_first_read_stale_refuted", "C14_store_keys_nodup", "C14_nonvacuous",
 ]
